@@ -239,3 +239,18 @@ macro_rules! delegate {
 impl LangInterpreter for Language {
     delegate!(Dutch, French, English, German, Italian, Spanish, Portuguese);
 }
+
+/// Verification hook (off by default): the linking-word table of a built-in language (empty for an unknown code).
+#[cfg(feature = "verif-hooks")]
+pub fn verif_linking_vocabulary(language_code: &str) -> Vec<&'static str> {
+    match language_code {
+        "de" => de::verif_linking_vocabulary(),
+        "en" => en::verif_linking_vocabulary(),
+        "es" => es::verif_linking_vocabulary(),
+        "fr" => fr::verif_linking_vocabulary(),
+        "it" => it::verif_linking_vocabulary(),
+        "nl" => nl::verif_linking_vocabulary(),
+        "pt" => pt::verif_linking_vocabulary(),
+        _ => Vec::new(),
+    }
+}
